@@ -267,6 +267,9 @@ func encodeCall(c *Call, e *env, buf []byte) (barcode.Barcode, error) {
 		if c.Fill == 0 {
 			return barcode.Scale(src, c.I1, c.I2)
 		}
+		if c.Fill < 0 {
+			return barcode.ScaleWithFill(src, c.I1, c.I2, nil)
+		}
 		return barcode.ScaleWithFill(src, c.I1, c.I2, fillColor(c.Fill))
 	}
 	return nil, errors.New("simnode: unknown fn " + c.Fn)
@@ -311,11 +314,21 @@ func execCall(c *Call, e *env, keep *[]retained, slot *CallResult) {
 		} else {
 			enc = utils.NewReedSolomonEncoder(utils.NewGaloisField(c.GF[0], c.GF[1], c.GF[2]))
 		}
-		data := append([]int(nil), c.Ints...)
+		ibacking := make([]int, len(c.Ints)+8)
+		copy(ibacking, c.Ints)
+		for i := len(c.Ints); i < len(ibacking); i++ {
+			ibacking[i] = -7777
+		}
+		data := ibacking[:len(c.Ints)]
 		orig := append([]int(nil), c.Ints...)
 		out := enc.Encode(data, c.I1)
 		for i := range data {
 			if data[i] != orig[i] {
+				slot.ArgMod = true
+			}
+		}
+		for i := len(c.Ints); i < len(ibacking); i++ {
+			if ibacking[i] != -7777 {
 				slot.ArgMod = true
 			}
 		}
@@ -328,8 +341,8 @@ func execCall(c *Call, e *env, keep *[]retained, slot *CallResult) {
 		slot.Digest = hashBytes("rs", bb.Bytes())
 		if c.Mut {
 			// returned slice must not alias the argument: overwrite the argument, compare
-			for i := range data {
-				data[i] ^= 0x55
+			for i := range ibacking {
+				ibacking[i] ^= 0x55
 			}
 			var b2 bytes.Buffer
 			for _, v := range out {
@@ -344,10 +357,23 @@ func execCall(c *Call, e *env, keep *[]retained, slot *CallResult) {
 		return
 	}
 
-	buf := append([]byte(nil), c.B...) // the caller's buffer
+	// the caller's buffer: a window into a larger array whose spare capacity holds sentinels, so
+	// that a library that appends into (or writes beyond) the slice it was given is noticed too
+	const spare = 24
+	backing := make([]byte, len(c.B)+spare)
+	copy(backing, c.B)
+	for i := len(c.B); i < len(backing); i++ {
+		backing[i] = 0xA7
+	}
+	buf := backing[:len(c.B)]
 	bc, err := encodeCall(c, e, buf)
 	if !bytes.Equal(buf, c.B) {
 		slot.ArgMod = true
+	}
+	for i := len(c.B); i < len(backing); i++ {
+		if backing[i] != 0xA7 {
+			slot.ArgMod = true
+		}
 	}
 	if err != nil {
 		slot.Class = "err"
@@ -367,8 +393,8 @@ func execCall(c *Call, e *env, keep *[]retained, slot *CallResult) {
 	slot.Digest = obs.digest()
 	slot.W, slot.H = bc.Bounds().Dx(), bc.Bounds().Dy()
 	if c.Mut {
-		for i := range buf {
-			buf[i] ^= 0x5a
+		for i := range backing {
+			backing[i] ^= 0x5a // the whole array, spare capacity included
 		}
 		after := observe(bc)
 		slot.MutDig = after.digest()
